@@ -38,6 +38,12 @@ def where_is(word, d):
 def run(tier, mode):
     import pytrs
     from pytrs.parser.rgxlib import twprge_regex
+    from pytrs.parser.rgxlib.twprge import pp_twprge_pm
+
+    def inside_pm_match(text, wpos, w):
+        # the word overlaps a match of the library's own Twp/Rge + Principal Meridian pattern (known finding C04-pm-gap: everything between the
+        # Twp/Rge and what the loose P.M. pattern takes for a meridian -- 'p m' across a blank is enough -- is replaced)
+        return any(m.start() < wpos + len(w) and m.end() > wpos for m in pp_twprge_pm.finditer(text))
     r = H.rng('c04')
     fails, texts = [], []
     n_or = 0
@@ -71,8 +77,8 @@ def run(tier, mode):
             wpos = text.index(w)
             before = text[:wpos]
             after = text[wpos:wpos + 60]
-            in_pm_gap = bool(PM_RGX.search(after)) and (any(wpos - m.end() <= 30 for m in twprge_regex.finditer(before))
-                                                        or bool(re.search(r'\d\D{0,30}$', before)))
+            in_pm_gap = inside_pm_match(text, wpos, w) or (bool(PM_RGX.search(after)) and (any(wpos - m.end() <= 30 for m in twprge_regex.finditer(before))
+                                                        or bool(re.search(r'\d\D{0,30}$', before))))
             # known: a word starting with N/S/E/W placed directly after a township or range number that lacks its direction
             # letter loses that first letter to the Twp/Rge match (the rest of the word stays)
             dir_letter = w[0].lower() in 'nsew' and bool(re.search(r'\d\W{0,3}$', before)) and (where_is(w[1:], d) is not None)
@@ -113,7 +119,7 @@ def run(tier, mode):
             wpos = text.index(w)
             before = text[:wpos]
             dir_letter = w[0].lower() in 'nsew' and bool(re.search(r'\d\W{0,3}$', before)) and (where_is(w[1:], d) is not None)
-            in_pm_gap = bool(PM_RGX.search(text[wpos:wpos + 60])) and (any(wpos - m.end() <= 30 for m in twprge_regex.finditer(before)) or bool(re.search(r'\d\D{0,30}$', before)))
+            in_pm_gap = inside_pm_match(text, wpos, w) or (bool(PM_RGX.search(text[wpos:wpos + 60])) and (any(wpos - m.end() <= 30 for m in twprge_regex.finditer(before)) or bool(re.search(r'\d\D{0,30}$', before))))
             fails.append({'kind': 'word_lost', 'detail': {'text': text, 'word': w, 'config': cfg}, 'got': repr([(t.trs, t.desc) for t in d.tracts][:3]) + ' e_flags=' + repr(d.e_flags)[:120],
                           'want': f'{w} in a tract desc or an unused_desc flag', 'known_id': 'C04-pm-gap' if in_pm_gap else ('C04-direction-letter' if dir_letter else None)})
     for t, w, kid in [('Q T154N-R97W Sec 14: NE/4', 'Q', 'C04-short-unused'), ('T154N-R97W QXZ Sec 14: NE/4', 'QXZ', None), ('QXZ T154N-R97W Sec 14: NE/4', 'QXZ', None),
